@@ -122,6 +122,63 @@ def _expiry_of(text):
     return None, None
 
 
+@unit("C25", "_unquote_cookie", [("tornado.httputil", "_unquote_cookie")])
+def u_unquote(c):
+    """the reader's unquoting, for every string: never raises; a value that is not enclosed in double quotes (or shorter than two characters) comes back unchanged; an
+    enclosed one - the empty `""` included, which is what set_cookie(name, "") and clear_cookie put on the wire - comes back as the escape substitution of its inside"""
+    import z3
+    import tornado.httputil as U
+    from pyvc.proxies import SStr, SBool
+    s = c.str("s")
+    if not c.symbolic:
+        if c.model is None:
+            s = c.rng.choice(['""', '"a"', 'a', '"', '', '"a', 'a"', '"a\\"b"', '"\\054"', 'ab', '"\\"', "'x'", s])
+            c.values["s"] = s
+        out = c.call(c.fn("tornado.httputil", "_unquote_cookie"), s)
+        c.only_raises(out, ())
+        enclosed = len(s) >= 2 and s[0] == '"' and s[-1] == '"'
+        c.oblige("post/unenclosed-values-unchanged", enclosed or (out.returned and out.value == s))
+        c.oblige("post/enclosed-values-are-the-substitution-of-the-inside", (not enclosed) or (out.returned and out.value == U._unquote_sub(U._unquote_replace, s[1:-1])))
+        return
+    sub = z3.Function("unquote_substitution", z3.StringSort(), z3.StringSort())
+    seen = []
+
+    def sub_stub(repl, text):
+        seen.append((repl, text))
+        return SStr(sub(text.t if isinstance(text, SStr) else z3.StringVal(text)))
+    with c.patched((U, "_unquote_sub", sub_stub)):
+        out = c.call(c.fn("tornado.httputil", "_unquote_cookie"), s)
+    c.only_raises(out, ())
+    if not out.returned:
+        return
+    c.cover("unquote")
+    n = z3.Length(s.t)
+    enclosed = z3.And(n >= 2, z3.SubString(s.t, 0, 1) == z3.StringVal('"'), z3.SubString(s.t, n - 1, 1) == z3.StringVal('"'))
+    r = out.value.t if isinstance(out.value, SStr) else z3.StringVal(out.value)
+    c.oblige("post/unenclosed-values-unchanged", SBool(z3.Implies(z3.Not(enclosed), r == s.t)))
+    c.oblige("post/enclosed-values-are-the-substitution-of-the-inside", SBool(z3.Implies(enclosed, r == sub(z3.SubString(s.t, 1, n - 2)))))
+    c.oblige("post/the-substitution-uses-the-escape-replacer", all(rp is U._unquote_replace for rp, _ in seen) and len(seen) <= 1)
+
+
+@unit("C25", "_unquote_replace", [("tornado.httputil", "_unquote_replace"), ("tornado.httputil", "_unquote_sub")],
+      bounded="finite case analysis: all 256 three-digit octal escapes \\000..\\377 and 256 single-character escapes, through the real compiled pattern and replacer")
+def u_unquote_replace(c):
+    """what the cookie library writes as \\ooo (or backslash + character) reads back as exactly that character"""
+    import tornado.httputil as U
+    hi = c.choose("code-high-bits", list(range(16)))
+    lo = c.choose("code-low-bits", list(range(16)))
+    code = hi * 16 + lo
+    f_sub = U._unquote_sub
+    got = f_sub(c.fn("tornado.httputil", "_unquote_replace"), "x\\%03oy" % code)
+    c.oblige("post/octal-escape-reads-back-as-the-character", got == "x" + chr(code) + "y")
+    ch = chr(code)
+    if ch not in "0123":
+        got2 = f_sub(c.fn("tornado.httputil", "_unquote_replace"), "x\\" + ch + "y")
+        c.oblige("post/backslash-escape-reads-back-as-the-character", got2 == ("x" + ch + "y" if ch != "\n" else "x\\\ny"))
+    else:
+        c.oblige("post/backslash-escape-reads-back-as-the-character", f_sub(c.fn("tornado.httputil", "_unquote_replace"), "x\\" + ch + "z") == "x" + ch + "z")
+
+
 @unit("C25", "RequestHandler.set_cookie.expiry", [(M, "RequestHandler.set_cookie")])
 def u_expiry(c):
     """The Expires attribute is exactly the requested instant: now + expires_days (whatever the process time zone), or the given
